@@ -1,0 +1,18 @@
+//go:build verif
+
+// Machine-checked contracts for package i18n (comment-only; compiled only with -tags verif).
+package i18n
+
+// The installed formatter uses the language named under langKey in THIS execution's context when that language has a
+// map, and the default language otherwise.
+//@ spec chosen(m, ctx, key, def) = ite(ctxval(ctx, key) != nil && has(m, ctxval(ctx, key).(string)), m[ctxval(ctx, key).(string)], m[def])
+//@ func SetLanguagesErrsMap$1(e, ctx)
+//@   implements functype IssueFmtFunc
+//@   unfold language_value_is_a_string: ctx != nil && (ctxval(ctx, langKey) == nil || istype(ctxval(ctx, langKey), string))
+//@   modifies e.Message
+//@   ensures[C11] language_of_this_execution_else_default: conf.formatted_with(chosen(m, ctx, langKey, defaultLang), e)
+
+//@ func WithLangKey$1(lk)
+//@   requires lk != nil
+//@   modifies *lk
+//@   ensures[C11] *lk == key
